@@ -158,9 +158,16 @@ func getRanger(v reflect.Value) (r Ranger, cleanup func(), err error) {
 	if !v.IsValid() {
 		return nil, nil, errors.New("can't range over invalid value")
 	}
+	if v.Kind() == reflect.Interface && !v.IsNil() {
+		// judge the value by what it holds (an element of a []interface{} bound to '.')
+		v = v.Elem()
+	}
 	t := v.Type()
 	if t.Implements(rangerType) {
-		return v.Interface().(Ranger), func() { /* no cleanup needed */ }, nil
+		if r, ok := v.Interface().(Ranger); ok && r != nil {
+			return r, func() { /* no cleanup needed */ }, nil
+		}
+		return nil, nil, fmt.Errorf("cannot range over nil pointer/interface (%s)", t)
 	}
 
 	v, isNil := indirect(v)
